@@ -1349,33 +1349,43 @@ impl SvgElement {
 
     fn resolve_size_delta(&mut self) {
         // assumes "width"/"height"/"r"/"rx"/"ry" are numeric if present
-        let (w, h) = match self.name.as_str() {
-            "circle" => {
-                let diam = self.get_attr("r").map(|r| 2. * strp(&r).unwrap_or(0.));
-                (diam, diam)
-            }
-            "ellipse" => (
-                self.get_attr("rx")
-                    .and_then(|rx| strp(&rx).ok())
-                    .map(|x| x * 2.),
-                self.get_attr("ry")
-                    .and_then(|ry| strp(&ry).ok())
-                    .map(|x| x * 2.),
-            ),
-            _ => (
-                self.get_attr("width").and_then(|w| strp(&w).ok()),
-                self.get_attr("height").and_then(|h| strp(&h).ok()),
-            ),
+        // The deltas apply to the size `Position` will see: a round shape given by a
+        // radius is measured by it (the attribute then holds half the size), anything
+        // else - including a circle / ellipse sized through `wh` - by width / height.
+        let round = matches!(self.name.as_str(), "circle" | "ellipse");
+        let w_attr = if round && self.has_attr("rx") {
+            "rx"
+        } else if round && self.has_attr("r") {
+            "r"
+        } else {
+            "width"
         };
+        let h_attr = if round && self.has_attr("ry") {
+            "ry"
+        } else if round && self.has_attr("r") {
+            "r"
+        } else {
+            "height"
+        };
+        let w_scale = if w_attr == "width" { 1. } else { 2. };
+        let h_scale = if h_attr == "height" { 1. } else { 2. };
+        let w = self
+            .get_attr(w_attr)
+            .and_then(|w| strp(&w).ok())
+            .map(|w| w * w_scale);
+        let h = self
+            .get_attr(h_attr)
+            .and_then(|h| strp(&h).ok())
+            .map(|h| h * h_scale);
 
         if let Some(dw) = self.pop_attr("dw") {
             if let Ok(Some(new_w)) = strp_length(&dw).map(|dw| w.map(|x| dw.adjust(x))) {
-                self.set_attr("width", &fstr(new_w));
+                self.set_attr(w_attr, &fstr(new_w / w_scale));
             }
         }
         if let Some(dh) = self.pop_attr("dh") {
             if let Ok(Some(new_h)) = strp_length(&dh).map(|dh| h.map(|x| dh.adjust(x))) {
-                self.set_attr("height", &fstr(new_h));
+                self.set_attr(h_attr, &fstr(new_h / h_scale));
             }
         }
     }
